@@ -36,6 +36,40 @@ fn gen_domain(rng: &mut Rng) -> Vec<u8> {
     }
 }
 
+/// three distinct host names: short ones, or long ones (up to the 253-byte name limit) that share a
+/// long common prefix, differ in one label only, or are prefixes of one another
+fn gen_hosts(rng: &mut Rng) -> [Vec<u8>; 3] {
+    let label = |rng: &mut Rng, n: usize| -> Vec<u8> { (0..n).map(|_| b"abcdefghijklmnopqrstuvwxyz0123456789"[rng.below(36) as usize]).collect() };
+    match rng.below(4) {
+        0 => [b"a.test".to_vec(), b"b.test".to_vec(), b"c.test".to_vec()],
+        1 => {
+            // common prefix of 1..240 bytes made of labels of at most 63 bytes, distinct tails
+            let plen = *rng.pick(&[1usize, 15, 31, 32, 62, 63, 64, 65, 100, 127, 128, 200, 240]);
+            let mut pre = vec![];
+            while pre.len() < plen { let r = rng.range(1, 63) as usize; let n = (plen - pre.len()).min(r); pre.extend(label(rng, n)); if pre.len() < plen { pre.push(b'.'); } }
+            let mk = |t: &[u8]| { let mut v = pre.clone(); v.extend_from_slice(t); v };
+            [mk(b"x.test"), mk(b"y.test"), mk(b"x.tesu")]
+        }
+        2 => {
+            // each a proper prefix of the next
+            let a = { let n = rng.range(1, 60) as usize; let mut v = label(rng, n); v.extend_from_slice(b".test"); v };
+            let b = { let n = rng.range(1, 40) as usize; let mut v = a.clone(); v.extend(label(rng, n)); v };
+            let c = { let n = rng.range(1, 63) as usize; let mut v = b.clone(); v.push(b'.'); v.extend(label(rng, n)); v };
+            [a, b, c]
+        }
+        _ => {
+            // same length, one byte differs at a random position
+            let n = rng.range(3, 63) as usize;
+            let base = label(rng, n);
+            let mut v = [base.clone(), base.clone(), base.clone()];
+            let i = rng.below(n as u64) as usize;
+            v[0][i] = b'a'; v[1][i] = b'b'; v[2][i] = b'c';
+            for h in v.iter_mut() { h.extend_from_slice(b".test"); }
+            v
+        }
+    }
+}
+
 fn enc_dest(kind: u8, addr: &[u8], port: u16) -> Vec<u8> {
     let mut v = vec![kind];
     if kind == 3 { v.push(addr.len() as u8); }
@@ -151,12 +185,12 @@ impl Group for DestGroup {
             return Case { lines: vec![format!("dest dgdec {} {} {}", side, open, chunks_str(&cut(rng, &w)))] };
         }
         // resolver histories over seeded names, literals and localhost
-        let hosts: [&[u8]; 3] = [b"a.test", b"b.test", b"c.test"];
+        let hosts: [Vec<u8>; 3] = gen_hosts(rng);
         let mut lines = vec!["dns clear".to_string()];
         let mut seeded = [false; 3];
         for _ in 0..rng.range(3, 14) {
             let hi = rng.below(3) as usize;
-            let h = hosts[hi];
+            let h = &hosts[hi][..];
             match rng.below(10) {
                 0..=2 => {
                     let n = rng.range(1, 3);
@@ -183,9 +217,24 @@ impl Group for DestGroup {
         let rt = runtime();
         let mut out = Outcome::default();
         rt.block_on(async {
+            // what each name was last seeded with (reference for the resolver histories)
+            let mut table: std::collections::HashMap<String, String> = Default::default();
             for line in &case.lines {
                 let toks: Vec<&str> = line.split_whitespace().collect();
                 let o = exec_line(&toks, &mut out).await;
+                match toks[..] {
+                    ["dns", "clear"] => table.clear(),
+                    ["dns", "seed", h, addrs] => { table.insert(h.to_string(), addrs.to_string()); }
+                    ["dns", "resolve", h, _] => {
+                        // O (C07): a cached answer for a name is one of the addresses of that very name
+                        if let (Some(addrs), Some(ip)) = (table.get(h), o.strip_prefix("ok ").and_then(|r| r.split(' ').next())) {
+                            if !addrs.split(',').any(|a| a.split(':').next() == Some(ip)) {
+                                out.oracle.push(OracleFail { sig: "answer_of_another_name/resolve_host_with_cache".into(), detail: format!("name {h} has {addrs}, resolved to {ip}") });
+                            }
+                        }
+                    }
+                    _ => {}
+                }
                 out.tags.push(format!("{}/{}", toks.get(0).unwrap_or(&""), toks.get(1).unwrap_or(&"")));
                 out.obs.push(o);
             }
